@@ -52,7 +52,10 @@ def gen(tier, rng):
         none_groups = [g for g in groups if rng.random() < 0.25]
         if len(none_groups) == len(groups) and rng.random() < 0.8:
             none_groups = none_groups[1:]
-        exact = kind == "probe"          # only the probe WCS inverts exactly: elsewhere stay off the pixel edges
+        prebin = None
+        if kind == "probe" and rng.random() < 0.2:
+            prebin = [rng.choice([1, 2, 3]) for _ in range(nd)]       # the cube is the result of a rebin by these factors
+        exact = kind == "probe" and not prebin          # only the plain probe WCS inverts exactly: elsewhere stay off the pixel edges
         for _p in range(npts):
             pix = []
             for p in range(nd):          # pixel axis p has length shape[nd-1-p]
@@ -85,13 +88,13 @@ def gen(tier, rng):
                 tabs = [t for t in tabs if t[0] not in mesh][:1]
                 none_groups = []
         unset = kind == "family" and rng.random() < 0.35      # a FITS WCS never evaluated before the cube is cropped
-        key = f"{kind}|{fam}|{shape}|{A}|{b}|{pts}|{none_groups}|{form}|{bad}|{keepdims}|{tabs}|{all_none}|{unset}|{mesh}|{none_pp}"
+        key = f"{kind}|{fam}|{shape}|{A}|{b}|{pts}|{none_groups}|{form}|{bad}|{keepdims}|{tabs}|{all_none}|{unset}|{mesh}|{none_pp}|{prebin}"
         cases.append({"key": key, "stratum": kind if not bad else "malformed", "kind": kind, "fam": fam, "shape": shape, "A": A, "b": b,
                       "groups": groups, "none_groups": none_groups, "pts": pts, "form": form, "bad": bad, "all_none": all_none,
-                      "keepdims": keepdims, "tabs": tabs, "mesh": mesh, "none_pp": none_pp, "unset": unset, "wcsname": rng.choice(["extra_coords", "combined_wcs"]) if kind == "ec" else "wcs",
+                      "keepdims": keepdims, "tabs": tabs, "mesh": mesh, "none_pp": none_pp, "prebin": prebin, "unset": unset, "wcsname": rng.choice(["extra_coords", "combined_wcs"]) if kind == "ec" else "wcs",
                       "nontrivial": True,
                       "show": {"wcs": kind, "family": fam, "shape": shape, "A": A, "b": b, "pixel_positions_of_points": pts,
-                               "groups_left_None": "ALL" if all_none else (none_pp if none_pp else none_groups), "form": form, "malformed": bad, "keepdims": keepdims, "extra_coords": tabs, "meshed_skycoord_on_axes": mesh, "wcs_never_evaluated_before": unset}})
+                               "groups_left_None": "ALL" if all_none else (none_pp if none_pp else none_groups), "form": form, "malformed": bad, "keepdims": keepdims, "extra_coords": tabs, "meshed_skycoord_on_axes": mesh, "cube_is_result_of_rebin_by": prebin, "wcs_never_evaluated_before": unset}})
     return cases
 
 
@@ -104,7 +107,11 @@ def build(case):
         wcs = family_wcs(case["fam"], nd, unset=case.get("unset", False))
     else:
         wcs = make_probe(case["A"], case["b"], tw=list(range(nd)), tp=list(range(nd)))
-    cube = NDCube(np.arange(int(np.prod(shape))).reshape(shape), wcs=wcs)
+    if case.get("prebin"):
+        big = tuple(n * f for n, f in zip(shape, case["prebin"]))
+        cube = NDCube(np.arange(int(np.prod(big)), dtype=float).reshape(big), wcs=wcs).rebin(tuple(case["prebin"]), operation=np.sum)
+    else:
+        cube = NDCube(np.arange(int(np.prod(shape))).reshape(shape), wcs=wcs)
     for k, (ax, slope, icpt) in enumerate(case["tabs"]):
         cube.extra_coords.add(f"e{k}", ax, (np.arange(shape[ax]) * slope + icpt) * u.m, physical_types=f"custom:e{k}")
     if case.get("mesh"):
@@ -273,7 +280,6 @@ def run(case):
         else:
             # region must contain every on-array point index; with all points on the array it is exactly the box
             rd = r.data
-            first = np.unravel_index(int(rd.flat[0]), shape) if rd.size else None
             for a in range(nd):
                 v = per_axis[a]
                 if not v:
@@ -311,7 +317,7 @@ def run(case):
 
 def coq_case(case, res):
     TRIV = "mk (C14_corr.WLin [] [] [] [] [] None None) [] [] false (OItem [])"
-    if case["kind"] != "probe" or case["bad"] is not None or case["form"] == "objects":
+    if case["kind"] != "probe" or case["bad"] is not None or case["form"] == "objects" or case.get("prebin"):
         return TRIV
     o = res["out"]
     nd = len(case["shape"])
